@@ -25,6 +25,8 @@ func TestCheck(t *testing.T) {
 		{Name: "om?np=1&auto=0&ops=3&gates=om.flush.sent&faults=" + faults, Q: 7, T: 9},
 		{Name: "om?np=2&auto=1&ops=2&init=valid&ret=1&gates=om.flush.sent&faults=" + faults, Q: 5, T: 7},
 		{Name: "om?np=1&auto=1&ops=2&init=zero&gates=om.flush.sent&faults=" + faults, Q: 5, T: 7},
+		// explicit retention (v2 commit requests), constant empty metadata, a stored position to come back from
+		{Name: "om?np=1&auto=1&ops=2&init=valid&ret=1&meta=const&gates=om.flush.sent&faults=" + faults, Q: 4, T: 6},
 		// the fetch of the stored position fails when the partition manager is created (coordinator moved, connection lost,
 		// an error without special treatment): ManagePartition may fail, it must not come up with another position
 		{Name: "om?np=1&auto=1&ops=2&init=valid&ofaults=notcoord,drop,other&gates=om.flush.sent&faults=notcoord,drop", Q: 3, T: 4},
